@@ -198,7 +198,7 @@ def gen_world(rw, rf, T, budget, base=None, tmode=None, n_clean=None, outage=Fal
     if n_clean is None:
         n_clean = rw.choice([1, 1, 2, 2, 3, 4, 6])
     used = set()
-    acs = [_gen_aircraft(rw, i, T, used, fast=outage and rw.random() < 0.7) for i in range(n_clean)]
+    acs = [_gen_aircraft(rw, i, T, used, fast=outage and rw.random() < 0.85) for i in range(n_clean)]
     # receiver: near a ground-capable aircraft (within ~0.3 deg), placed on
     # either side of equator / antimeridian / Greenwich when the start is there
     rcv = None
@@ -265,7 +265,7 @@ def gen_world(rw, rf, T, budget, base=None, tmode=None, n_clean=None, outage=Fal
         pos_out = None
         if outage or rf.random() < 0.1:
             o0 = rf.uniform(0, T * 0.4) if not outage else rf.uniform(20, 250)
-            pos_out = (o0, o0 + (rf.choice([150, 179, 181, 200, 400]) if not outage else rf.choice([700, 1150, 1300, 1500])))
+            pos_out = (o0, o0 + (rf.choice([150, 179, 181, 200, 400]) if not outage else rf.choice([1150, 1300, 1300, 1500])))
         a["faults"] = {"p_loss": p_loss, "p_dup": p_dup, "gaps": gaps, "style": style, "pos_outage": pos_out}
         ver = rw.choice([0, 1, 2, 2, None])
         t = rw.uniform(0, min(30, T / 3))
@@ -347,7 +347,7 @@ def generate(run_seed, tier):
     rb = substream(run_seed, "batch")
     long_run = tier != "quick" and rw.random() < 0.3
     T = rw.choice([60, 120, 200, 300] + ([600, 900] if long_run else []))
-    outage = rw.random() < 0.06   # long sparse run with a long position-only outage
+    outage = rw.random() < 0.08   # long sparse run with a long position-only outage
     if outage:
         T = 1800
     wd = gen_world(rw, rf, T, 1500 if tier != "quick" else 700, outage=outage, n_clean=rw.choice([1, 1, 2]) if outage else None)
